@@ -462,6 +462,18 @@ def rule_extensionless(ck: Check, repo: Repo, rid: str = "R10") -> None:
     if len(handlers) != 1:
         raise AnalysisError("_find_licenses: SpdxIdentifierNotFoundError handler not found")
 
+    def lit(test, positive):
+        """Orientation-free spelling of a branch condition (`not X`, `a not in b` fold into the polarity)."""
+        while True:
+            if isinstance(test, ast.UnaryOp) and isinstance(test.op, ast.Not):
+                test, positive = test.operand, not positive
+            elif isinstance(test, ast.Compare) and len(test.ops) == 1 and isinstance(test.ops[0], (ast.NotIn, ast.IsNot, ast.NotEq)):
+                flip = {ast.NotIn: ast.In, ast.IsNot: ast.Is, ast.NotEq: ast.Eq}[type(test.ops[0])]
+                test, positive = ast.Compare(left=test.left, ops=[flip()], comparators=test.comparators), not positive
+            else:
+                break
+        return ("" if positive else "not ") + ast.unparse(test)
+
     def branches(stmts, cond=()):
         """Leaf statement lists of an if/else tree."""
         if stmts and isinstance(stmts[-1], ast.If) or any(isinstance(s, ast.If) for s in stmts):
@@ -469,8 +481,8 @@ def rule_extensionless(ck: Check, repo: Repo, rid: str = "R10") -> None:
             pre = []
             for s in stmts:
                 if isinstance(s, ast.If):
-                    out += branches(pre + s.body, cond + (ast.unparse(s.test),))
-                    out += branches(pre + s.orelse, cond + ("not " + ast.unparse(s.test),))
+                    out += branches(pre + s.body, cond + (lit(s.test, True),))
+                    out += branches(pre + s.orelse, cond + (lit(s.test, False),))
                     return out
                 pre.append(s)
         return [(cond, stmts)]
